@@ -68,3 +68,9 @@ def _f8(prop, case, violation):
 def _f11(prop, case, violation):
     # hydrogens on an atom with exactly one heavy neighbour (computed from the input by the reference bond rule)
     return violation.get("sig") == "free-rotamer"
+
+
+@predicate("F16")
+def _f16(prop, case, violation):
+    # --protonate-all vs default next to an incomplete amino-acid residue (computed from the input with the templates)
+    return violation.get("sig") == "incomplete-residue-protonation"
